@@ -518,6 +518,23 @@ pub fn deep_if_stack_case(n: usize, outer_true: bool) -> Case {
     Case { req: format!("c04 {} {} 400000", t.join(";"), vars), in_domain: true, nontrivial: true, tags: vec!["deep-call-stack", "if", "for"] }
 }
 
+/// a `while` line whose condition, after binding, starts with a plain VALUE on the first evaluation and
+/// with a COMMAND on the next (`%{cnd}` spreads `true`, then `not true`): every evaluation decides anew;
+/// the same through `if` inside the loop, which must agree with the loop on every pass
+pub fn flipping_condition_case(start: &str, next: &str) -> Case {
+    let e = |s: &str| s.to_string();
+    let mut t: Vec<String> = vec![e("B2")];
+    t.push(e("W")); t.push(enc_str("while")); t.push(enc_list(&[e("%{cnd}")])); t.push(e("B3"));
+    t.extend(line(Some("n0"), "inc", &[e("${n0}")]));
+    t.extend(line(None, "emit", &[e("pass"), e("${n0}"), e("${cnd}")]));
+    t.extend(line(Some("cnd"), "set", &[e("${alt}")]));
+    t.push(enc_str("end"));
+    t.extend(line(None, "emit", &[e("after"), e("${n0}")]));
+    let mut vars = vec![format!("{}={}", enc_str("cnd"), enc_str(start)), format!("{}={}", enc_str("alt"), enc_str(next)), format!("{}={}", enc_str("n0"), enc_str("0"))];
+    vars.sort();
+    Case { req: format!("c04 {} {} 4000", t.join(";"), vars.join(",")), in_domain: true, nontrivial: true, tags: vec!["flipping-condition", "while"] }
+}
+
 impl Prop for C04Prop {
     fn id(&self) -> &'static str {
         "C04"
@@ -529,6 +546,9 @@ impl Prop for C04Prop {
             out.push(deep_if_stack_case(n, true));
         }
         out.push(deep_if_stack_case(1100, false));
+        out.push(flipping_condition_case("true", "not true"));
+        out.push(flipping_condition_case("yes", "equals a b"));
+        out.push(flipping_condition_case("not false", "false"));
         out
     }
     fn rule(&self) -> &'static str {
